@@ -10,6 +10,18 @@ import (
 // decided separately (VerifC02Ticks*).
 var verifDurations = []float64{0.25, 0.5, 1, 1.5, 2, 3, 4, 1.0 / 3, 2.0 / 3, 0.1}
 
+// verifDurRat are the same values as fractions, followed by some whose tick length is not a
+// whole number (1/9, 1/7, 5/11, 2/9): none is exactly halfway, so round(960*v) is unique.
+var verifDurRat = [][2]uint32{{1, 4}, {1, 2}, {1, 1}, {3, 2}, {2, 1}, {3, 1}, {4, 1}, {1, 3}, {2, 3}, {1, 10}, {1, 9}, {1, 7}, {5, 11}, {2, 9}}
+
+// verifDur picks the i-th duration: the value handed to the writer and the tick count the
+// property demands for it, round(960*num/den) in integer arithmetic — independent of the
+// writer under test and of anything the writer has done before.
+func verifDur(i int) (float64, uint32) {
+	num, den := verifDurRat[i][0], verifDurRat[i][1]
+	return float64(num) / float64(den), (2*960*num + den) / (2 * den)
+}
+
 // verifWriter builds a writer over n tracks in an arbitrary state satisfying the clock
 // invariant, with an arbitrary pending rest.
 func verifWriter(n int) (*MIDIWriter, *TrackSet, []uint32, uint32, uint32) {
@@ -52,24 +64,27 @@ func VerifC02NoteStep() {
 		keys[i] = vf.NondetUint8("key")
 	}
 	vel := vf.NondetUint8("vel")
-	value := verifDurations[vf.NondetIntRange("dur", 0, len(verifDurations)-1)]
-	ticks := w.newTicks(value)
+	value, ticks := verifDur(vf.NondetIntRange("dur", 0, len(verifDurRat)-1))
 	err := w.Note(value, vel, keys...)
 	vf.Assert("note-succeeds", err == nil)
 	start := g + rest
 	evs := verifEvents(ts, base)
 	vf.Assert("two-events-per-key", len(evs) == 2*k)
 	ons, offs := 0, 0
+	channel := -1 // whichever channel the writer uses, one and the same for every on and off
 	for _, ev := range evs {
 		switch f := ev.op.Func.(type) {
 		case *NoteOn:
 			ons++
+			if channel < 0 {
+				channel = int(f.Channel)
+			}
 			vf.Assert("note-on-at-instance-start", ev.abs == start)
-			vf.Assert("velocity-as-given", f.Velocity == vel && f.Channel == 0)
+			vf.Assert("velocity-as-given", f.Velocity == vel && int(f.Channel) == channel && channel < 16)
 		case *NoteOff:
 			offs++
 			vf.Assert("note-off-at-instance-end", ev.abs == start+ticks)
-			vf.Assert("off-channel", f.Channel == 0)
+			vf.Assert("off-channel", channel < 0 || int(f.Channel) == channel)
 		default:
 			vf.Assert("only-note-events", false)
 		}
@@ -137,8 +152,7 @@ func verifTaken(evs []verifEvent, ev verifEvent, keys []uint8, i int, on bool) b
 func VerifC02RestStep() {
 	n := vf.NondetIntRange("tracks", 1, vf.Param("C02.maxTracks", 4))
 	w, ts, base, _, rest := verifWriter(n)
-	value := verifDurations[vf.NondetIntRange("dur", 0, len(verifDurations)-1)]
-	ticks := w.newTicks(value)
+	value, ticks := verifDur(vf.NondetIntRange("dur", 0, len(verifDurRat)-1))
 	w.Rest(value)
 	vf.Assert("rest-emits-nothing", len(verifEvents(ts, base)) == 0)
 	vf.Assert("rest-accumulates", w.tickDelta == rest+ticks)
@@ -195,9 +209,9 @@ func VerifC02TwoNotes() {
 		return ks
 	}
 	keys1, keys2 := mk(k1, "a"), mk(k2, "b")
-	v1 := verifDurations[vf.NondetIntRange("dur1", 0, 4)]
-	v2 := verifDurations[vf.NondetIntRange("dur2", 5, 9)]
-	t1, t2 := w.newTicks(v1), w.newTicks(v2)
+	// the first from {1/4, 1, 3/2, 1/9, 1/7, 5/11}, the second from {1/2, 2/3, 1/10, 1/9, 1/7, 2/9}
+	v1, t1 := verifDur([]int{0, 2, 3, 10, 11, 12}[vf.NondetIntRange("dur1", 0, 5)])
+	v2, t2 := verifDur([]int{1, 8, 9, 10, 11, 13}[vf.NondetIntRange("dur2", 0, 5)])
 	vf.Assert("first-ok", w.Note(v1, 64, keys1...) == nil)
 	marks := make([]int, n)
 	for i := range marks {
